@@ -39,7 +39,7 @@ theorem step_logInBox {t t' : T} {ev : Ev} (hinv : LogInBox t) (h : step t ev = 
   | localRun id reqs its nfev => have e := stepLocal_effect h; exact logInBox_append e.cfg hinv e.log
   | round ge renv news =>
     obtain ⟨hc, _, _, _, _, _, hcase⟩ := stepRound_effect h
-    rcases hcase with ⟨_, _, hl, _⟩ | ⟨_, _, _, seeds, t1, _, se, _, rfl⟩
+    rcases hcase with ⟨_, _, hl, _, _⟩ | ⟨_, _, _, seeds, t1, _, se, _, rfl⟩
     · exact logInBox_append hc hinv ⟨[], by simp [hl], by simp⟩
     · obtain ⟨_, _, f3, _, _, _⟩ := updateHibernation_frame t1 (seeds.map (·.deme))
       exact logInBox_append hc hinv (by simpa [f3] using se.log)
